@@ -1,6 +1,7 @@
 import XzVerif.Proofs.Segment
 import XzVerif.Proofs.GoSrcHash
 import XzVerif.Proofs.GoSrcHash2
+import XzVerif.Proofs.GoSrcTree2
 import XzVerif.Proofs.Tables
 import XzVerif.Proofs.XzRoundTrip
 import XzVerif.Proofs.Select
@@ -286,6 +287,21 @@ theorem C01_source_hashtable_getMatches (fuel : Nat) (g : GoSrc.T_hashTable) (t 
       n = (t.getMatches (UInt64.ofNat h.toNat)).length ∧ pos'.size = 16 ∧
       ∀ k, k < n → (pos'.getD k 0#64).toNat = (t.getMatches (UInt64.ofNat h.toNat)).getD k 0 :=
   GoSrcP.getMatches_refines fuel g t rel h positions hsz hfuel hord
+
+/-- the BinaryTree match finder's read-only walkers from the source (`binTree.max`, `min`, `distance` over the node slice)
+    are those of the hand-written model (Model/BinTree.lean) on a tree without cycles; no index panic. (`search`, `add`,
+    `remove`, `pred`, `succ` hold pointers into the node slice across assignments — outside the translator's subset; the
+    BinaryTree model is tied by candidate lists and computed streams.) -/
+theorem C01_source_bintree_walkers (fuel : Nat) (g : GoSrc.T_binTree) (t : BT.Tree) (rel : GoSrcP.BTRel g t) (v : BitVec 32)
+    (hfuel : t.node.size + 2 ≤ fuel) :
+    (v.toNat < t.node.size → t.front < 2 ^ 31 → (GoSrc.binTree_distance g v).toNat = t.distance v.toNat) ∧
+    ((v.toNat = BT.null ∨ v.toNat < t.node.size) → (v.toNat ≠ BT.null → (t.nd (t.max v.toNat)).r = BT.null) →
+      GoSrc.binTree_max fuel g v = Go.Res.ok (BitVec.ofNat 32 (t.max v.toNat))) ∧
+    ((v.toNat = BT.null ∨ v.toNat < t.node.size) → (v.toNat ≠ BT.null → (t.nd (t.min v.toNat)).l = BT.null) →
+      GoSrc.binTree_min fuel g v = Go.Res.ok (BitVec.ofNat 32 (t.min v.toNat))) :=
+  ⟨fun hv hf => GoSrcP.binTree_distance_spec g t rel v hv hf,
+   fun hv ht => GoSrcP.binTree_max_spec fuel g t rel v hv hfuel ht,
+   fun hv ht => GoSrcP.binTree_min_spec fuel g t rel v hv hfuel ht⟩
 
 theorem C01_source_translation_complete : GoSrc.failures = [] := by decide
 
